@@ -357,6 +357,23 @@ func runC09(tier string, seed uint64) {
 				corpus = append(corpus, Req{Method: "GET", Path: "/" + singleBucketName + "?versions&key-marker=k&version-id-marker=" + queryEscape(v)},
 					Req{Method: "GET", Path: "/" + singleBucketName + "?versions&key-marker=d%2Fe&version-id-marker=" + queryEscape(v)})
 			}
+			// copies of an object onto itself (the metadata-replace idiom), small and large, repeated
+			bigSelf := make([]byte, 300<<10)
+			for i := range bigSelf {
+				bigSelf[i] = byte(i * 7)
+			}
+			corpus = append(corpus, Req{Method: "PUT", Path: "/" + singleBucketName + "/selfbig", Body: bigSelf})
+			for i := 0; i < 3; i++ {
+				for _, sk := range []string{"selfbig", "k"} {
+					corpus = append(corpus, Req{Method: "PUT", Path: "/" + singleBucketName + "/" + sk, Body: []byte{}, Header: [][2]string{{"X-Amz-Copy-Source", "/" + singleBucketName + "/" + sk}, {"X-Amz-Meta-Round", strconv.Itoa(i)}}},
+						Req{Method: "GET", Path: "/" + singleBucketName + "/d%2Fe"})
+				}
+			}
+			for _, cl := range []string{"4611686018427387904", "9223372036854775807", "1099511627776", "281474976710656", "68719476736"} {
+				// a declared length the server must not believe before the bytes arrive
+				corpus = append(corpus, Req{Method: "PUT", Path: "/" + singleBucketName + "/huge", Body: []byte("x"), Header: [][2]string{{"Content-Length", cl}}},
+					Req{Method: "PUT", Path: "/" + singleBucketName + "/huge", Body: []byte("x"), Header: [][2]string{{"X-Amz-Content-Sha256", "STREAMING-AWS4-HMAC-SHA256-PAYLOAD"}, {"X-Amz-Decoded-Content-Length", cl}}})
+			}
 			corpus = append(corpus,
 				Req{Method: "PUT", Path: "/" + singleBucketName + "/neg", Body: []byte("x"), Header: [][2]string{{"X-Amz-Content-Sha256", "STREAMING-AWS4-HMAC-SHA256-PAYLOAD"}, {"X-Amz-Decoded-Content-Length", "-1"}}},
 				Req{Method: "PUT", Path: "/"}, Req{Method: "DELETE", Path: "/"}, Req{Method: "POST", Path: "/?delete"})
